@@ -2,6 +2,7 @@
 from __future__ import annotations
 
 import ast
+import re
 
 from sa.core import Ob
 from sa.pm import AnalysisError, norm, body_nodes
@@ -383,6 +384,26 @@ def c07_5(ctx):
     ctx.check(not byval, "unspents-recorded-whatever-their-value", ctx.where(su, byval[0].node) if byval else ctx.where(su),
               "Tx.set_unspents refuses spent outputs under `%s`: Tx.from_bin reads the unspents extension inside a catch-all, so such a transaction comes back without its spent outputs (bytes -> tx -> bytes is no longer the identity)" % ([o for o in gi.f_opaques(byval[0].cond) if isinstance(o, str)][0][:70] if byval else ""),
               sample={"refusals_by_value": 0})
+    # from_bin reads the extension whenever it could be there: a size pre-check in front of parse_unspents may only skip trailing
+    # data shorter than 9 bytes per input (8-byte amount + the one-byte length of an EMPTY script is a whole record)
+    fb = ctx.func(CTX, "Tx.from_bin")
+    wfb = sym.walk(ctx, fb)
+    pcs = sym.calls_matching(wfb, lambda t: t.endswith(".parse_unspents") or t == "parse_unspents")
+    if not pcs:
+        ctx.undecided("extension-read-whenever-it-fits", ctx.where(fb), "Tx.from_bin does not call parse_unspents in a form this clause reads")
+    for e in pcs:
+        if e.reach is True:
+            ctx.ok("extension-read-whenever-it-fits", sample={"gated_by": "nothing"})
+            continue
+        sized = [o for o in gi.f_opaques(e.reach) if isinstance(o, str) and ("len(" in o or ".tell()" in o)]
+        per_input = [int(m_) for o in sized for m_ in re.findall(r"(?<![\w.])(\d+) \* len\(", o)]
+        if per_input and max(per_input) > 9:
+            ctx.bad("extension-read-whenever-it-fits", ctx.where(fb, e.node), "Tx.from_bin reads the unspents extension only under `%s`: %d bytes per input, but the smallest record is 9 bytes (amount + the length byte of an empty script), "
+                    "so an extension of short records is silently dropped" % (sized[0][:90], max(per_input)), sample={"bytes_per_input_assumed": max(per_input)})
+        elif sized:
+            ctx.undecided("extension-read-whenever-it-fits", ctx.where(fb, e.node), "Tx.from_bin reads the unspents extension under a size test (`%s`) this clause cannot bound" % sized[0][:90])
+        else:
+            ctx.ok("extension-read-whenever-it-fits", sample={"gated_by": str(e.reach)[:80]})
     # the reader takes a record for `unknown` exactly when its AMOUNT is zero (the property states the extension for non-zero
     # amounts; a spent output with an empty script and a non-zero amount is a real output): the condition under which None is
     # recorded, over the function's inputs, whatever the local is called
